@@ -94,7 +94,7 @@ theorem has141_of_flag (m : InMsg) (h : logonResetFlag m = true) : m.f.has 141 =
   | none => rw [hg] at h; simp at h
   | some v => exact Fields.has_of_get? _ _ v hg
 
-theorem nxEval_flag (s : Sess) (m : InMsg) (ns : Int) (h : logonResetFlag m = true) : nxEval s m ns = s := by
+theorem nxEval_flag (s : Sess) (m : InMsg) (ns : Int) (h : logonResetFlag m = true) : nxEval s m ns = (s, none) := by
   unfold nxEval; rw [has141_of_flag m h]; simp
 
 theorem logonMsg_kind (s : Sess) (b : Bool) : (logonMsg s b).kind = "A" := rfl
@@ -200,8 +200,9 @@ theorem logon_reset_received (s : Sess) (m : InMsg) (hi : s.cfg.initiator = fals
   have e4 : ∀ ns, logonFinish s4 m ns = (incrTarget s5, none) := by
     intro ns
     unfold logonFinish
+    rw [nxEval_flag _ m ns hf]
     simp only []
-    rw [nxEval_flag _ m ns hf, ← hs5]
+    rw [← hs5]
     have : checkTooHigh s5 m = none := by
       unfold checkTooHigh; rw [h34]; simp only []
       rw [if_neg]; rw [hs5]; show ¬ (1 : Int) > s4.store.target; rw [q2]; omega
@@ -273,8 +274,8 @@ theorem sendLogonRe_plain (s : Sess) (m : InMsg) :
 
 /-- the evaluation of the peer's tag 789 never touches the store, the configuration, the state or `sentReset` -/
 theorem nxEval_frame (s : Sess) (m : InMsg) (ns : Int) :
-    (nxEval s m ns).store = s.store ∧ (nxEval s m ns).cfg = s.cfg ∧ (nxEval s m ns).st = s.st
-    ∧ (nxEval s m ns).sentReset = s.sentReset ∧ (nxEval s m ns).out = s.out ∧ (nxEval s m ns).hb = s.hb := by
+    (nxEval s m ns).1.store = s.store ∧ (nxEval s m ns).1.cfg = s.cfg ∧ (nxEval s m ns).1.st = s.st
+    ∧ (nxEval s m ns).1.sentReset = s.sentReset ∧ (nxEval s m ns).1.out = s.out ∧ (nxEval s m ns).1.hb = s.hb := by
   have he : ∀ o : OutMsg, (enqueueAndSend s o).store = s.store ∧ (enqueueAndSend s o).cfg = s.cfg ∧ (enqueueAndSend s o).st = s.st
       ∧ (enqueueAndSend s o).sentReset = s.sentReset ∧ (enqueueAndSend s o).out = s.out ∧ (enqueueAndSend s o).hb = s.hb := by
     intro o
@@ -288,7 +289,7 @@ theorem nxEval_frame (s : Sess) (m : InMsg) (ns : Int) :
 
 /-- when nothing is to be done: the option off, a Logon carrying tag 141, no readable 789, or a 789 equal to our number -/
 theorem nxEval_quiet (s : Sess) (m : InMsg) (ns : Int)
-    (h : s.cfg.nextExpected = false ∨ m.f.has 141 = true ∨ peerNext m = none ∨ peerNext m = some ns) : nxEval s m ns = s := by
+    (h : s.cfg.nextExpected = false ∨ m.f.has 141 = true ∨ peerNext m = none ∨ peerNext m = some ns) : nxEval s m ns = (s, none) := by
   unfold nxEval
   rcases h with h | h | h | h
   · rw [h]; rfl
@@ -296,14 +297,23 @@ theorem nxEval_quiet (s : Sess) (m : InMsg) (ns : Int)
   · rw [h]; simp
   · rw [h]; simp
 
-/-- the implied gap fill: the option on, no tag 141, a readable 789 different from our number -/
+/-- the implied gap fill: the option on, no tag 141, a readable 789 different from our number, message persistence on -/
 theorem nxEval_fill (s : Sess) (m : InMsg) (ns n : Int) (h1 : s.cfg.nextExpected = true) (h2 : m.f.has 141 = false)
-    (h3 : peerNext m = some n) (h4 : n ≠ ns) : nxEval s m ns = enqueueAndSend s (gapFillRe s m n s.store.sender) := by
+    (h3 : peerNext m = some n) (h4 : n ≠ ns) (hp : s.cfg.persist = true) :
+    nxEval s m ns = (enqueueAndSend s (gapFillRe s m n (ns + 1)), none) := by
   unfold nxEval
-  rw [h1, h2, h3]
+  rw [h1, h2, h3, hp]
   simp [h4]
 
-theorem nxEval_log (s : Sess) (m : InMsg) (ns : Int) : ∃ pre, (nxEval s m ns).log = pre ++ s.log := by
+/-- … and without persistence: the error `targetTooHigh{789, our outbound number}`, nothing sent -/
+theorem nxEval_nopersist (s : Sess) (m : InMsg) (ns n : Int) (h1 : s.cfg.nextExpected = true) (h2 : m.f.has 141 = false)
+    (h3 : peerNext m = some n) (h4 : n ≠ ns) (hp : s.cfg.persist = false) :
+    nxEval s m ns = (s, some (.tooHigh n ns)) := by
+  unfold nxEval
+  rw [h1, h2, h3, hp]
+  simp [h4]
+
+theorem nxEval_log (s : Sess) (m : InMsg) (ns : Int) : ∃ pre, (nxEval s m ns).1.log = pre ++ s.log := by
   have hq : ∀ x : Sess, ∃ pre, (sendQueued x).log = pre ++ x.log := by
     intro x; unfold sendQueued; split
     · exact ⟨_, rfl⟩
@@ -331,7 +341,7 @@ theorem handleLogon_passes (s : Sess) (m : InMsg)
     (hf : logonResetFlag m = false ∨ s.sentReset = true) (n : Int) (h34 : getInt m 34 = .val n) (hge : s.store.target ≤ n) :
     ∃ s2 : Sess, s2.cfg = s.cfg ∧ s2.st = s.st ∧ s2.store = s.store ∧ s2.sentReset = s.sentReset ∧ s2.out = s.out
       ∧ s2.toSend = s.toSend ∧ s2.hb = s.hb ∧ (∃ pre, s2.log = pre ++ s.log ∧ ∀ o ∈ pre, o = cbObs s m ∨ o = Obs.refresh)
-      ∧ handleLogon s m = logonTail s2 m := by
+      ∧ handleLogon s m = logonTail s2 m s.store.sender := by
   generalize hs1 : (if (!s.cfg.initiator && s.cfg.refreshOnLogon) = true then s.emit Obs.refresh else s) = s1
   have a1 : s1.cfg = s.cfg ∧ s1.st = s.st ∧ s1.store = s.store ∧ s1.sentReset = s.sentReset ∧ s1.out = s.out ∧ s1.toSend = s.toSend
       ∧ s1.hb = s.hb ∧ ∃ pre, s1.log = pre ++ s.log ∧ ∀ o ∈ pre, o = Obs.refresh := by
